@@ -60,7 +60,8 @@ def _empty_cfg(sizes):
 @st.composite
 def _single_family_cfg(draw, fam, maxw):
   need3 = fam in ("unimod", "junimod")
-  rank = draw(st.integers(1 if fam in ("mono", "unimod", "junimod") else 2, 3))
+  rank = draw(st.integers(1, 3)) if fam in ("mono", "unimod", "junimod") else (
+      draw(st.sampled_from([2, 3, 3])))
   # pair families get sizes from {2,2,3,4}: a size-2 dimension next to a
   # larger one exercises the even/odd constraint-group bookkeeping.
   sizes = [draw(st.integers(3, 4)) if need3 else
@@ -87,15 +88,34 @@ def _single_family_cfg(draw, fam, maxw):
     cfg["mono"][m] = 1
     cfg["mono"][c] = draw(st.integers(0, 1))
     cfg[fam] = [[m, c, draw(st.sampled_from([-1, 1]))]]
+    rest = [d for d in dims if d not in (m, c)]
+    if rest and draw(st.booleans()):
+      # a second trust of the same family sharing the main or the conditional
+      # feature (each convex set needs its own Dykstra increment).
+      o = draw(st.sampled_from(rest))
+      if draw(st.booleans()):
+        cfg[fam].append([m, o, draw(st.sampled_from([-1, 1]))])
+      else:
+        cfg["mono"][o] = 1
+        cfg[fam].append([o, c, draw(st.sampled_from([-1, 1]))])
   elif fam in ("mdom", "rdom"):
     a = draw(st.sampled_from(dims))
     b = draw(st.sampled_from([d for d in dims if d != a]))
     cfg["mono"][a] = cfg["mono"][b] = 1
     cfg[fam] = [[a, b]]
+    rest = [d for d in dims if d not in (a, b)]
+    if rest and draw(st.integers(0, 2)) > 0:
+      o = draw(st.sampled_from(rest))
+      cfg["mono"][o] = 1
+      cfg[fam].append(draw(st.sampled_from([[a, o], [a, o], [o, b], [b, o]])))
   elif fam == "jmono":
     a = draw(st.sampled_from(dims))
     b = draw(st.sampled_from([d for d in dims if d != a]))
     cfg["jmono"] = [[a, b]]
+    rest = [d for d in dims if d not in (a, b)]
+    if rest and draw(st.booleans()):
+      o = draw(st.sampled_from(rest))
+      cfg["jmono"].append(draw(st.sampled_from([[a, o], [o, b]])))
   else:
     k = draw(st.integers(1, min(2, rank)))
     ds = draw(st.permutations(dims))[:k]
@@ -107,7 +127,7 @@ def _single_family_cfg(draw, fam, maxw):
 def _lattice_case(draw, tier):
   maxw = 36 if tier == "quick" else 81
   fam = draw(st.sampled_from(
-      ["mono", "unimod", "ew", "ew", "ew", "tz", "tz", "mdom", "mdom", "rdom",
+      ["mono", "unimod", "ew", "ew", "ew", "tz", "tz", "mdom", "mdom", "mdom", "rdom", "rdom",
        "jmono", "jmono", "junimod"] + ["combo"] * 5))
   if fam == "combo":
     sizes = draw(S.lattice_sizes(max_rank=3, min_rank=2,
